@@ -147,15 +147,16 @@ func checkC17(c c17Case) (Outcome, error) {
 	}
 	rec("C17").Max("worst_deviation", worst)
 	rec("C17").Max("worst_deviation:"+t.Key+"/"+c.Transform, worst)
-	// tolerance: 1e-9, widened for summation-order effects that grow with n (approximate entropy multiplies
-	// a difference of two rounded sums by 2n: measured 3.4e-10 at n = 10^6, bound ~ 4e-15 n)
-	tol := 1e-9 + 2e-15*float64(n)
-	if t.Key == "apen" {
-		tol = 1e-9 + 1e-14*float64(n)
-	}
+	// tolerance: 2e-8.  C01-C05 allow every result to deviate from the standard's value by 1e-8, and that value is exactly
+	// invariant under the transformation, so two conforming results can differ by up to 2e-8; anything tighter asserts more
+	// than the properties state.  (It used to be 1e-9 + 2e-15 n, chosen from the deviations I had measured; the thorough tier
+	// then met a 458032-bit sequence with a single one: the standard's own formula for the runs test, evaluated in float64
+	// by the library and by my reference alike, gives 0.99882105664 for x and 0.99882106067 for its complement - the
+	// difference 2 n pi (1 - pi) - V_obs cancels catastrophically when pi is 1/n or 1 - 1/n.  DESIGN section 10, false alarms.)
+	tol := 2e-8
 	rec("C17").Max("worst_deviation_over_tolerance", worst/tol)
 	if worst > tol {
-		return out, violation(t.Key+"/"+c.Transform, "%s param=%d n=%d family=%s: f(x) = %v but f(%s x) = %v (param %d); expected equal%s within 1e-9",
+		return out, violation(t.Key+"/"+c.Transform, "%s param=%d n=%d family=%s: f(x) = %v but f(%s x) = %v (param %d); expected equal%s within 2e-8",
 			t.Key, c.Param, n, c.Seq.Family, a, c.Transform, bv, p2, map[bool]string{true: " with Q -> 1-Q", false: ""}[flipQ])
 	}
 	return out, nil
